@@ -437,6 +437,14 @@ class within_double_byte:
         yield "ascii-below-0x40-is-never-part", implies(v < 0x40, result == 0)
         yield "high-byte-is-always-part", implies(v >= 0x80, result >= 1)
         yield "second-half-has-a-first-half-before-it", implies(result == 2, both(a.pos > a.line_start, byte_at(t, imax(a.pos - 1, 0)) >= 0x80))
+        # the ASCII-range trail bytes 0x40..0x7E of big5 / uhc / gbk: part of a character exactly after a lead byte, and the lead
+        # bytes of those encodings start at 0x81 (seed C03-f1 moved the bound to 0x82: 0x81 0x40 was cut in two by the layout)
+        prev = byte_at(t, imax(a.pos - 1, 0))
+        trail = both(0x40 <= v, v < 0x7F)
+        yield "lone-high-byte-at-line-start-is-a-first-half", implies(both(v >= 0x80, a.pos == a.line_start), result == 1)
+        yield "ascii-trail-at-line-start-is-not-part", implies(both(trail, a.pos == a.line_start), result == 0)
+        yield "ascii-trail-after-a-lead-at-line-start-is-a-second-half", implies(both(trail, a.pos == a.line_start + 1, prev >= 0x81), result == 2)
+        yield "ascii-trail-after-a-non-lead-is-not-part", implies(both(trail, a.pos > a.line_start, prev < 0x81), result == 0)
 
     loops = {0: Loop(invariant=lambda v: both(v.line_start - 1 <= v.i, v.i < v.pos, forall(v.i + 1, v.pos + 1, lambda k: byte_at(v.text, k) >= 0x80)),
                      decreases=lambda v: v.i - v.line_start + 1)}
